@@ -421,7 +421,7 @@ func c01accept(c *Ctx) {
 			x, y, op := e.Cond.X, e.Cond.Y, e.Cond.Op
 			truth := e.Taken
 			// normalise so that the constant is on the right
-			if p.Abs(x).K == px.ConstV && p.Abs(y).K != px.ConstV {
+			if isConstSym(x) && !isConstSym(y) {
 				x, y = y, x
 				op = flip(op)
 			}
